@@ -54,7 +54,8 @@ func vPtr(tn string, v *sx.Sexp) *sx.Sexp {
 func nilSliceI() *sx.Sexp { return sx.L(sx.A("slice"), sx.Bool(true), sx.Bool(true)) }
 func nilMapI() *sx.Sexp   { return sx.L(sx.A("smap"), sx.Bool(true), sx.Bool(true)) }
 
-var specialStrings = []string{"<a&'\">", "x", "", "a<b", "&amp;", "'q'", "\"", "é<", "plain", "<<>>", "a\x00b", "T&C", "1", "0"}
+var specialStrings = []string{"<a&'\">", "x", "", "a<b", "&amp;", "'q'", "\"", "é<", "plain", "<<>>", "a\x00b", "T&C", "1", "0",
+	"caf\xc3<i>", "\xe9 <b>&", "\xf0\"><img>", "\xe2\x82<", "\xff'"} // the last five: malformed UTF-8 right before a special byte
 
 func genScalar(r *h.Rand) *sx.Sexp {
 	switch r.Intn(7) {
